@@ -148,13 +148,14 @@ Proof. repeat split; reflexivity. Qed.
 (* --- failing plugins are skipped, the others are unaffected -------------------------------------- *)
 
 (* for any list of discovered plugins and any assignment of outcomes (cannot be executed, exits at once, closes
-   its socket, never registers, Configure fails, Synchronize fails, healthy, dies later) *)
+   its socket, never registers, Configure fails, Synchronize fails, healthy, exits later, closes its connection
+   later and keeps running) *)
 Theorem C18_failures_skipped : forall oc ds p,
   In p (start_plugins oc ds) <-> In p ds /\ active (oc p) = true.
 Proof. exact failures_skipped. Qed.
 Print Assumptions C18_failures_skipped.
 
-Theorem C18_active_iff_healthy : forall o, active o = true <-> o = OGood \/ o = ODieLater.
+Theorem C18_active_iff_healthy : forall o, active o = true <-> o = OGood \/ o = ODieLater \/ o = OHangLater.
 Proof. exact active_cases. Qed.
 Print Assumptions C18_active_iff_healthy.
 
@@ -202,10 +203,64 @@ Theorem C18_kept_is_running : forall o, active o = true -> state_after_start o =
 Proof. exact kept_is_running. Qed.
 Print Assumptions C18_kept_is_running.
 
-Theorem C18_killed_on_stop : forall o, launches o = true -> state_after_stop o = Some PGone.
-Proof. exact stopped_is_killed. Qed.
+(* stopPlugins on ANY plugin table: arbitrary closed flags (a plugin already marked closed but not yet pruned by an
+   event included), arbitrary connection states, arbitrary process states (running, exited and not yet waited for).
+   Provided the processes outside r.plugins were gone before (the invariant, below), after Stop every launched
+   process is gone — neither running nor a zombie —, r.plugins is empty and no plugin has been forgotten *)
+Theorem C18_killed_on_stop : forall w, dropped_gone w ->
+  all_gone (stop_plugins w) /\ r_plugins (stop_plugins w) = [] /\ map rp_d (stop_plugins w) = map rp_d w.
+Proof. exact stop_kills_all. Qed.
 Print Assumptions C18_killed_on_stop.
 
+(* … in particular when the list is r.plugins itself *)
+Theorem C18_killed_on_stop_listed : forall ps, Forall (fun p => rp_listed p = true) ps -> all_gone (stop_plugins ps).
+Proof. exact stop_kills_listed. Qed.
+Print Assumptions C18_killed_on_stop_listed.
+
+(* for every directory, every assignment of failure modes, every history h before Stop (connections lost by exit or
+   by closing, the runtime's close handler run or not yet run, any number of events — or none — in between) and
+   every history h' after it: all processes launched at start-up are gone, and they are exactly the launchable
+   discovered plugins *)
+Theorem C18_killed_on_stop_any_history : forall oc ds h h',
+  let w := run (h ++ AStop :: h')%list (world_after_start oc ds) in
+  all_gone w /\ map rp_d w = filter (fun p => launches (oc p)) ds.
+Proof. exact stop_kills_any_history. Qed.
+Print Assumptions C18_killed_on_stop_any_history.
+
+(* "killed when NRI drops it", later than start-up: after any event or request every plugin whose connection is
+   lost or that is marked closed is out of r.plugins and its process is gone; healthy plugins are untouched *)
+Theorem C18_killed_when_dropped_later : forall w, dropped_gone w ->
+  Forall (fun q => rp_conn q = false \/ rp_closed q = true -> rp_listed q = false /\ rp_proc q = PGone) (step w AEvent) /\
+  (forall p, In p w -> rp_listed p = true -> rp_conn p = true -> rp_closed p = false -> event_step p = p).
+Proof. exact event_drops_and_kills. Qed.
+Print Assumptions C18_killed_when_dropped_later.
+
+(* the invariant holds when Start returns and is kept by every action *)
+Theorem C18_dropped_are_gone : forall oc ds h, dropped_gone (run h (world_after_start oc ds)).
+Proof. exact (fun oc ds h => run_dropped_gone h _ (world_after_start_dropped_gone oc ds)). Qed.
+Print Assumptions C18_dropped_are_gone.
+
+(* not vacuous: a stopPlugins that passes over plugins already marked closed does not satisfy C18_killed_on_stop_listed *)
+Theorem C18_stop_skipping_closed_refuted : exists ps,
+  Forall (fun p => rp_listed p = true) ps /\ ~ all_gone (stop_plugins_skipping_closed ps).
+Proof. exact skipping_closed_refuted. Qed.
+Print Assumptions C18_stop_skipping_closed_refuted.
+
 Example C18_kill_example : state_after_start OCloseFd = Some PGone /\ state_after_start OExit = Some PGone /\
-  state_after_stop ODieLater = Some PGone.
+  state_after_start OHangLater = Some PRunning.
+Proof. repeat split; reflexivity. Qed.
+
+(* "dies later, then Stop with nothing in between": three plugins; 10-hang closes its connection and keeps running,
+   20-exit exits, the runtime has noticed both, no event is processed, Stop.  The model leaves nothing; the variant
+   that skips closed plugins leaves one running process and one zombie (and still kills the healthy 30-ok) *)
+Example C18_silent_stop_example :
+  let p i b := {| d_idx := i; d_base := b; d_cfg := "" |} in
+  let oc q := if String.eqb (d_base q) "hang" then OHangLater else if String.eqb (d_base q) "exit" then ODieLater else OGood in
+  let w := run [AConnLost "10-hang" false; AConnLost "20-exit" true; ANotice "10-hang"; ANotice "20-exit"]
+               (world_after_start oc [p "10" "hang"; p "20" "exit"; p "30" "ok"]) in
+  map rp_proc w = [PRunning; PZombie; PRunning] /\ map rp_closed w = [true; true; false] /\
+  map rp_listed w = [true; true; true] /\
+  map rp_proc (stop_plugins w) = [PGone; PGone; PGone] /\
+  map rp_proc (stop_plugins_skipping_closed w) = [PRunning; PZombie; PGone] /\
+  map rp_proc (stop_plugins_skipping_closed (step w AEvent)) = [PGone; PGone; PGone].
 Proof. repeat split; reflexivity. Qed.
